@@ -47,7 +47,15 @@ def main():
         done = []
         for d in sorted(glob.glob("/verif/seeded/%s-*" % pid)):
             m = json.load(open(os.path.join(d, "meta.json")))
-            done.append("     - %s (needs: %s)" % (os.path.basename(d).split("-", 2)[2].replace("-", " "), m["needs_to_manifest"][:160]))
+            title = os.path.basename(d).split("-", 2)[2].replace("-", " ")
+            rd = os.path.join(d, "README.md")
+            if os.path.exists(rd):          # the author's own one-line title says what the change is
+                for l in open(rd, errors="replace"):
+                    l = l.strip().lstrip("#").strip()
+                    if l:
+                        title = l.split(":", 1)[1].strip() if ":" in l[:24] else l
+                        break
+            done.append("     - %s (needs: %s)" % (title[:140], m["needs_to_manifest"][:140]))
         prop = "Property %s: %s\n\nStatement: %s\n\nQuantified over: %s\n\nFiles it is anchored in: %s\n" % (
             p["id"], p["title"], p["statement"], p["quantifier"]["text"], ", ".join(p["anchors"]["files"]))
         open(os.path.join(base, "TASK-%s.txt" % pid), "w").write(
